@@ -35,11 +35,13 @@ STUBS = [
 ASSUMPTIONS = ["domain as stated: 'ctx.<key>' after the item that records the key; on stacks declaring fused items every requested item is implemented on the outermost wrapper (the complement must be rejected by the constructor)",
                "mode strings without duplicate items"]
 OUTSIDE = ["mode strings longer than the bound, alphabets with more than two ctx keys", "DataLoader fetch path (__getitems__)"]
-BOUNDS = {"quick": "stacks {plain, forward, fused-outermost, XT-over-fused, two fused groups, TorchWrapper, forward-over-fused (must reject)}; modes over {x,class,y,index,ctx.kx,ctx.kc} up to length 3 (all for fused stacks, sampled otherwise); n unbounded, i in [-n,n), one preceding access; sequence forms with n<=4",
+BOUNDS = {"quick": "stacks {plain, forward, fused-outermost, XT-over-fused, two fused groups, TorchWrapper, forward-over-fused (must reject)}; modes over {x,class,y,index,ctx.kx,ctx.kx2,ctx.kclass} up to length 3 plus fixed longer modes with several ctx items (all for fused stacks, sampled otherwise); n unbounded, i in [-n,n), one preceding access; sequence forms with n<=4",
           "thorough": "same stacks, all modes up to length 4"}
 
-ALPHABET = ["x", "class", "y", "index", "ctx.kx", "ctx.kclass"]
-RECORDER = {"ctx.kx": "x", "ctx.kclass": "class"}
+ALPHABET = ["x", "class", "y", "index", "ctx.kx", "ctx.kclass", "ctx.kx2"]
+RECORDER = {"ctx.kx": "x", "ctx.kclass": "class", "ctx.kx2": "x"}
+# modes with several different ctx items (always included, also in the quick tier)
+MULTI_CTX = ["x ctx.kx ctx.kx2", "x ctx.kx2 ctx.kx", "x class ctx.kx ctx.kclass", "class x ctx.kclass ctx.kx2 ctx.kx", "x ctx.kx class ctx.kclass index"]
 
 
 class ProbeDS(KDDataset):
@@ -55,6 +57,8 @@ class ProbeDS(KDDataset):
         self.calls += 1
         if ctx is not None:
             ctx["k" + item] = ("k" + item, idx)
+            if item == "x":
+                ctx["kx2"] = ("kx2", idx)
         return (item, idx, self.calls)
 
     def getitem_x(self, idx, ctx=None):
@@ -89,6 +93,7 @@ class FusedW(KDWrapper):
         root.calls += 1
         if ctx is not None:
             ctx["kx"] = ("kx", idx)
+            ctx["kx2"] = ("kx2", idx)
             ctx["kclass"] = ("kclass", idx)
         return ("x", idx, root.calls), ("class", idx, root.calls)
 
@@ -360,6 +365,12 @@ def stack_modes(stack, L):
     return valid_modes(L)
 
 
+def with_multi_ctx(stack, modes):
+    if stack in ("torch",):
+        return modes
+    return modes + [m for m in MULTI_CTX if m not in modes]
+
+
 def conditions(tier, rng):
     H = "harness.c01"
     q = tier == "quick"
@@ -376,7 +387,7 @@ def conditions(tier, rng):
             short = [m for m in modes if len(m.split(" ")) <= 3]
             long_ = [m for m in modes if len(m.split(" ")) > 3]
             modes = short + rng.sample(long_, 400 - len(short) if len(short) < 400 else 0)
-        for mode in modes:
+        for mode in with_multi_ctx(stack, modes):
             conds.append(Cond(
                 name=f"getitem[{stack};{mode}]", harness=H, body="body_getitem", cfg=(stack, mode),
                 params=[("n", "int"), ("i", "int"), ("j", "int"), ("return_ctx", "bool")],
